@@ -36,13 +36,8 @@ Record case := mk {
 Definition optrows_ok (err : bool) (out : rows) (m : option rows) : bool :=
   match m with None => err | Some rs => negb err && rows_eqb out rs end.
 
-Fixpoint apply_ranges (ps : pset) (l : list (bs * (Z * Z * Z))) : pset * bool :=
-  match l with
-  | [] => (ps, true)
-  | (n, (s, e, m)) :: t =>
-      let '(ps', ok) := add_range ps (unbs n) s e m in
-      if ok then apply_ranges ps' t else (ps', false)
-  end.
+Definition apply_ranges (ps : pset) (l : list (bs * (Z * Z * Z))) : pset * bool :=
+  add_ranges ps (map (fun x => (unbs (fst x), snd x)) l).
 
 Definition model_ok (c : case) : bool :=
   let rs := unrows (c_in c) in
